@@ -3,6 +3,7 @@ package c03
 
 import (
 	"os"
+	"sort"
 	"strconv"
 	"testing"
 	"time"
@@ -39,6 +40,10 @@ func spaces(thorough bool) []chanmc.Space {
 		// two consecutive fee updates by the opener and no HTLC, one cut anywhere
 		// (an update acked-but-unsigned by the peer next to one pending in a commit diff)
 		out = append(out, chanmc.Space{Dev: -1, P: chanmc.Params{Type: typ, OpenerB: ti%2 == 1, MaxCuts: 1, Fees: []int64{6500, 7100}}})
+		// the same with the second update REVERTING to the rate both commitments already
+		// use (6000): a rate equal to one in use is the structurally special value of the
+		// fee alphabet (no-op detection, coalescing of unsigned fee updates)
+		out = append(out, chanmc.Space{Dev: -1, P: chanmc.Params{Type: typ, OpenerB: ti%2 == 0, MaxCuts: 1, Fees: []int64{6500, 6000}}})
 		// one HTLC, two cuts anywhere (incl. during resynchronisation), full interleaving
 		out = append(out, chanmc.Space{Dev: -1, P: chanmc.Params{Type: typ, OpenerB: ti%2 == 0, MaxCuts: 2, Fees: []int64{6500}, Script: []chanmc.Intent{
 			{By: 0, Amt: sat(25000, 1), Fate: "settle"},
@@ -68,6 +73,16 @@ func spaces(thorough bool) []chanmc.Space {
 			}}})
 		}
 	}
+	// cheapest spaces first (stable): on a loaded machine the deadline then cuts depth in the
+	// few large full-interleaving spaces instead of dropping the all-types breadth pass
+	cost := func(sp chanmc.Space) int {
+		c := len(sp.P.Script)*3 + len(sp.P.Fees)*2 + sp.P.MaxCuts*4
+		if sp.Dev < 0 {
+			c += 20
+		}
+		return c
+	}
+	sort.SliceStable(out, func(i, j int) bool { return cost(out[i]) < cost(out[j]) })
 	return out
 }
 
